@@ -111,6 +111,15 @@ int main(int argc, char** argv) {
           add("O", encode(root));
           if (!pool.back().valid || pool.back().rf.blocks.size() != pool[1].rf.blocks.size()) { fprintf(stderr, "pool file O invalid\n"); return done(2); }
           for (size_t b = 0; b < pool[1].rf.blocks.size(); b++) if (strip_bpi(block_dump(pool.back().rf.blocks[b])) != strip_bpi(block_dump(pool[1].rf.blocks[b]))) { fprintf(stderr, "pool file O: block %zu does not resolve to the content of B\n", b); return done(2); } }
+        { // Q: file B as a streaming producer writes it: every byte / text string of two or more bytes is an indefinite-length string of two or three chunks
+          Node root = parse_exact(pool[1].bytes); int edited = 0;
+          std::vector<Node*> strs; visit(root, [&](Node& n) { if ((n.major == 2 || n.major == 3) && !n.indef && n.bytes.size() >= 2) strs.push_back(&n); });
+          for (Node* np : strs) { Node& n = *np; { std::string all = n.bytes; size_t parts = all.size() >= 6 ? 3 : 2, per = all.size() / parts; int mj = n.major;
+              n.kids.clear(); for (size_t k = 0; k < parts; k++) { std::string piece = all.substr(k * per, k + 1 == parts ? std::string::npos : per); n.kids.push_back(mj == 2 ? mk_bstr(piece) : mk_tstr(piece)); } n.bytes.clear(); n.indef = true; edited++; } }
+          if (!edited) { fprintf(stderr, "pool file Q: no string found\n"); return done(2); }
+          add("Q", encode(root));
+          if (!pool.back().valid || pool.back().rf.blocks.size() != pool[1].rf.blocks.size()) { fprintf(stderr, "pool file Q invalid\n"); return done(2); }
+          for (size_t b = 0; b < pool[1].rf.blocks.size(); b++) if (block_dump(pool.back().rf.blocks[b]) != block_dump(pool[1].rf.blocks[b])) { fprintf(stderr, "pool file Q: block %zu does not resolve to the content of B\n", b); return done(2); } }
         { PoolFile z; z.name = "Z"; z.path = g_dir + "/in_Z_missing"; pool.push_back(z); }
         if (!pool[7].valid || !pool[8].valid || pool[8].rf.blocks.empty() || pool[8].rf.blocks[0].has_bpi) { fprintf(stderr, "pool file I or J invalid\n"); return done(2); }
         size_t N = pool.size();
